@@ -54,13 +54,53 @@ def failing_exit(n):
     return None
 
 
-def diverges(n):
-    for x in hirq.walk(n, into_closures=False):
-        k = x.get("k")
-        if k in ("ret", "try"):
-            return k
-        if k == "call" and FAIL_CALLS.search(x.get("fn") or ""):
-            return "exit"
+def diverges(n, depth=0):
+    """does control leave through a return / `?`-free failing exit on EVERY path through n (all-paths, not "somewhere inside")?
+    returns the kind of the first unconditional exit found, else None"""
+    if n is None or depth > 40:
+        return None
+    n = hirq.strip(n) if isinstance(n, dict) else n
+    if not isinstance(n, dict):
+        return None
+    k = n.get("k")
+    if k == "ret":
+        return "ret"
+    if k == "call" and FAIL_CALLS.search(n.get("fn") or ""):
+        return "exit"
+    if k == "call" and re.search(r"(panicking::panic|panic_fmt|begin_panic|unreachable|process::abort)", n.get("fn") or ""):
+        return "panic"
+    if k == "block":
+        for st_ in n.get("stmts", []):
+            d = diverges(st_, depth + 1)
+            if d:
+                return d
+        return diverges(n.get("e"), depth + 1) if n.get("e") is not None else None
+    if k == "if":
+        if n.get("else") is None:
+            return None
+        a, b = diverges(n["then"], depth + 1), diverges(n["else"], depth + 1)
+        return a if a and b else None
+    if k == "match":
+        ds = [diverges(a["body"], depth + 1) for a in n["arms"]]
+        return ds[0] if ds and all(ds) else None
+    if k in ("let", "letx"):
+        return diverges(n.get("init"), depth + 1)
+    if k == "try":
+        # `expr?` leaves only on Err; but `Err(x)?` / `return`-like uses always leave
+        inner = hirq.strip(n["e"])
+        if inner.get("k") == "call" and (inner.get("fn") or "").endswith("result::Result::Err"):
+            return "try"
+        return diverges(inner, depth + 1)
+    if k in ("call", "mcall"):
+        for a in ([n["recv"]] if k == "mcall" else []) + list(n.get("args") or []):
+            d = diverges(a, depth + 1)
+            if d:
+                return d
+        return None
+    if k in ("assign", "assignop"):
+        return diverges(n.get("r"), depth + 1)
+    if k in ("cast", "un", "ref", "field"):
+        return diverges(n.get("e"), depth + 1)
     return None
 
 
@@ -160,6 +200,10 @@ def run(ctx):
     # truncated input must fail in the library for the CLI to exit non-zero: the DBC string block's declared size is enforced
     from .c17 import string_block_size_enforced
     string_block_size_enforced(ctx, prog.crate("wow_cdbc"), "C20")
+
+    # bulk extraction hands the whole work list to the library's parallel extractor: every name must get a result slot there
+    from .c09 import every_name_gets_a_slot
+    every_name_gets_a_slot(ctx, prog.crate("wow_mpq"), "C20")
 
     # work lists are narrowed only on the user's request
     R_work = ctx.rule("C20.work-list-narrowed-only-by-user-filter", "in the mpq extract/create/list commands a `retain`/`truncate`/`drain`/`dedup` on a file list is conditional on an option the user passed", floor=1)
@@ -294,6 +338,15 @@ def run(ctx):
                     d = diverges(arm_body)
                     if d:
                         ctx.ok(R_site, {"fn": fshort, "site": kind, "on": scr_short, "class": "propagates (%s)" % d})
+                        continue
+                    if any(x.get("k") == "try" for x in hirq.walk(arm_body, into_closures=False)):
+                        # the arm obtains the data another way and `?`-propagates that attempt's failure
+                        ctx.ok(R_site, {"fn": fshort, "site": kind, "on": scr_short, "class": "falls back through a propagating call"})
+                        continue
+                    partial = failing_exit(arm_body)
+                    if partial and not mutated_locals(arm_body):
+                        ctx.bad(R_site, key + "|conditional-exit", where, "%s on `%s`: the failing exit (%s) in this arm is only taken on some paths; the others complete the arm normally" % (kind, scr_short, partial),
+                                "with the option / state that skips the exit the command reports the failure on stdout and still exits 0")
                         continue
                     muts = mutated_locals(arm_body)
                     if muts:
